@@ -381,7 +381,7 @@ def run_mutation_case(spec):
             info['inference_failed'] = '%s: %s' % (type(ex).__name__, ex)
     info['cands'] = len(cands)
     term = '(%s, %s, (%s, %s), %s, %s)' % (KIND[fn], c_nats(range(known)), c_heap(hb), c_nats(gb),
-                                          '[' + '; '.join(cands) + ']', obs)
+                                          ('[' + '; '.join(cands) + ']') if cands else '(@nil mcall)', obs)
     return term, info
 
 
@@ -536,7 +536,7 @@ def run_crossover_case(spec):
             info['inference_failed'] = '%s: %s' % (type(ex).__name__, ex)
     info['cands'] = None if cands is None else len(cands)
     term = '(%s, (%s, (%s, %s)), %s, %s)' % (c_nats(range(known)), c_heap(hb), c_nats(b1), c_nats(b2),
-                                             '[' + '; '.join(cands or []) + ']', obs)
+                                             ('[' + '; '.join(cands) + ']') if cands else '(@nil xcall)', obs)
     return term, info
 
 
@@ -657,7 +657,9 @@ def evaluate(ctx, group, kind, specs):
         terms.append(term)
         metas.append((spec, info))
         term_of[id(spec)] = term
-    res = ctx.coq_cases(group, REQ, MUT_FN if kind == 'mut' else CX_FN, terms, 3, shard=250, preamble=PRE)
+    res = ctx.coq_cases(group, REQ, MUT_FN if kind == 'mut' else CX_FN, terms, 3, shard=250, preamble=PRE,
+                        case_ty=('mkind * list nat * state * list mcall * obs' if kind == 'mut'
+                                 else 'list nat * cstate * list xcall * cobs'))
     for (spec, info), (ag, ho, dom) in zip(metas, res):
         modelled = info.get('cands') is not None and not (kind == 'cx' and spec['fn'] == 'subgraph_crossover')
         ctx.count(group, key=repr(sorted(spec.items())), nontrivial=bool(dom and info['changed']), fn=spec['fn'],
